@@ -472,7 +472,12 @@ func (p *Parser) checkImportNamespace(token lexer.Token, global bool, ctx contex
 }
 
 func (p *Parser) getUsedFuncs(startFunc string) []string {
-	usedFuncs := []string{}
+	return p.collectUsedFuncs(startFunc, []string{})
+}
+
+// collectUsedFuncs adds startFunc and every function it calls (directly or indirectly) to usedFuncs. A function which has
+// already been collected is not followed again, because the number of paths through a call graph grows exponentially.
+func (p *Parser) collectUsedFuncs(startFunc string, usedFuncs []string) []string {
 	startFunc = strings.TrimSpace(startFunc)
 
 	if usedFuncsTemp, exists := p.usedFuncs[startFunc]; exists {
@@ -483,13 +488,7 @@ func (p *Parser) getUsedFuncs(startFunc string) []string {
 		for _, usedFuncTemp := range usedFuncsTemp {
 			if !slices.Contains(usedFuncs, usedFuncTemp) {
 				usedFuncs = append(usedFuncs, usedFuncTemp)
-			}
-			usedSubFuncs := p.getUsedFuncs(usedFuncTemp)
-
-			for _, usedSubFunc := range usedSubFuncs {
-				if !slices.Contains(usedFuncs, usedSubFunc) {
-					usedFuncs = append(usedFuncs, usedSubFunc)
-				}
+				usedFuncs = p.collectUsedFuncs(usedFuncTemp, usedFuncs)
 			}
 		}
 	}
